@@ -14,7 +14,7 @@ ID = "C19"
 LEVEL = "exploration"
 RULE = ("Hypothesis rule-based state machine over one simulated node and a harness-played fabric with 3 hosts x 2 ports (one of "
         "them the node's own address; a 130-address pool in the thorough tier): manager steps with drawn clock increments "
-        "(0..4000 s), outgoing connects established or refused, remote close before/after the greeting, greetings with drawn "
+        "(0..4000 s), outgoing connects established, refused, or failing at once (address unreachable), remote close before/after the greeting, greetings with drawn "
         "nonce (own nonce = self-connection) and listening port, peer announcements over the address set (known, connected, own, "
         "non-IPv4-mapped entries; in particular announcements of addresses that are currently waiting for reconnection), incoming "
         "connections that reuse a (host, port) key. Real DiskInterface.write_peers in a "
@@ -248,7 +248,7 @@ class Exec:
             simnet.CLOCK.now += op[1]
             self.net.step(self.node)
             # new outgoing sockets appear as pending connects
-            for s in self.net.pending_connects:
+            for s in self.net.pending_connects + self.net.failed_connects:
                 if not any(c.node_sock is s for c in self.conns):
                     self.conns.append(Conn(s, None, "out", tuple(s.remote_addr)))
         elif k in ("establish", "refuse"):
@@ -335,6 +335,12 @@ class Exec:
             h, p = waiting[op[2] % len(waiting)]
             self.send(c, M.PeersMessage([M.Peer(0, IPv6Address("::FFFF:%s" % h), p)]))
             self.flags["announcements_of_waiting_addresses"] = self.flags.get("announcements_of_waiting_addresses", 0) + 1
+        elif k == "unreachable":
+            a = self.addrs[op[1] % min(len(self.addrs), 6)]
+            if op[2]:
+                self.net.unreachable.add(a)            # connects to it now fail immediately (no route)
+            else:
+                self.net.unreachable.discard(a)
         elif k == "crash_next_save":
             self.crash_next = True
         self.pump()
@@ -414,6 +420,10 @@ class Machine(RuleBasedStateMachine):
     @rule(i=st.integers(0, 20), j=st.integers(0, 50))
     def announce_waiting(self, i, j):
         self.do(["peers_waiting", i, j])
+
+    @rule(i=st.integers(0, 5), on=st.booleans())
+    def unreachable(self, i, on):
+        self.do(["unreachable", i, on])
 
     @rule(i=st.integers(0, 20))
     def close(self, i):
